@@ -3,8 +3,33 @@
 KP = "menelaus.partitioners.KDQTreePartitioner:KDQTreePartitioner"
 
 
+NP = "menelaus.partitioners.NNSpacePartitioner:NNSpacePartitioner"
+
+
 def register(R):
     R.klass(KP, fields={})
+    R.klass(NP, fields={})
+    R.specfn('''
+@recursive("Array[Real]", "Array[Real]", "Int", "Real")
+def nnps_sum(a, b, k):
+    return 0 if k <= 0 else nnps_sum(a, b, k - 1) + abs(a[k - 1] - b[k - 1]) / (a[k - 1] + b[k - 1])
+''')
+    # the numpy expression np.sum(np.abs(a - b) / (a + b)) is the recursive sum
+    R.lemma("nnps_vector_form", params={"a": "Vec", "b": "Vec", "k": "Int"}, requires=["k >= 0"],
+            ensures=["asum(vdiv(vabs(vsub(a, b)), vadd(a, b)), 0, k) == nnps_sum(a, b, k)"], induct=("k", "0"))
+    # C10: symmetric in the two samples; 0 when both samples are the same set (equal membership vectors)
+    R.lemma("nnps_symmetric", params={"a": "Vec", "b": "Vec", "k": "Int"}, requires=["k >= 0"],
+            ensures=["nnps_sum(a, b, k) == nnps_sum(b, a, k)"], induct=("k", "0"))
+    R.lemma("nnps_identity", params={"a": "Vec", "k": "Int"}, requires=["k >= 0", "forall(i, 0, k, a[i] > 0)"],
+            ensures=["nnps_sum(a, a, k) == 0"], induct=("k", "0"))
+    # range: every term |x - y| / (x + y) lies in [0, 1] for positive x, y, hence the averaged distance does
+    R.lemma("nnps_range", params={"a": "Vec", "b": "Vec", "k": "Int"},
+            requires=["k >= 0", "forall(i, 0, k, a[i] >= 0 and b[i] >= 0 and a[i] + b[i] > 0)"],
+            ensures=["0 <= nnps_sum(a, b, k)", "nnps_sum(a, b, k) <= k"], induct=("k", "0"))
+    R.contract(NP + ".compute_nnps_distance", tags=("C10",), params={"nnps_matrix": "Mat", "v1": "Vec", "v2": "Vec"},
+               requires=["len(v1) == len(v2)", "len(v1) >= 1"],
+               ensures=["result == nnps_sum(dotv(v1, nnps_matrix), dotv(v2, nnps_matrix), len(v1)) / len(v1)"],
+               use_exit=["nnps_vector_form(M_s1, M_s2, len(v1))"])
     # sum_{i<k} (a[i] + 1/2) / D == (sum_{i<k} a[i] + k/2) / D      (the +0.5-corrected distribution sums to one)
     R.lemma("corrected_sum", params={"a": "List[Int]", "b": "List[Real]", "D": "Real", "k": "Int"},
             requires=["k >= 0", "D != 0", "forall(i, 0, k, b[i] == (a[i] + 0.5) / D)"],
